@@ -47,6 +47,8 @@ FUNCS = [
     ("BaCopyToNative", "context_cpu.py", "BufferByteArray.copy_to_native", "BYIII"),
     ("BaUpdateFromBuffer", "context_cpu.py", "BufferByteArray.update_from_buffer", "BIY"),
     ("BaToBytearray", "context_cpu.py", "BufferByteArray.to_bytearray", "BII"),
+    # X = an XBuffer object: a record of the attributes `buffer` (bytes), `capacity`, `chunks` (a list of Chunk records)
+    ("Grow", "context.py", "XBuffer.grow", "XI"),
     ("ChunkSize", "context.py", "Chunk.size", "O"),
     ("ChunkOverlaps", "context.py", "Chunk.overlaps", "OO"),
     ("ChunkMerge", "context.py", "Chunk.merge", "OO"),
@@ -70,6 +72,12 @@ class Tr:
         self.declared = set(a.arg for a in fn.args.args)
         self.raises = any(isinstance(n, ast.Raise) for n in ast.walk(fn))
         self.mutated = set()
+        self.uses = set()
+
+    def is_last_chunk(self, sub):
+        v, i = sub.value, sub.slice
+        return (isinstance(v, ast.Attribute) and isinstance(v.value, ast.Name) and v.attr == "chunks" and self.kind_of(v.value.id) == "X"
+                and isinstance(i, ast.UnaryOp) and isinstance(i.op, ast.USub) and isinstance(i.operand, ast.Constant) and i.operand.value == 1)
 
     def kind_of(self, name):
         for a, k in zip(self.fn.args.args, self.kinds):
@@ -103,6 +111,11 @@ class Tr:
                 return f"{x.value.id}.{x.attr}_"
             if isinstance(x.value, ast.Name) and x.attr == "buffer" and self.kind_of(x.value.id) == "B":
                 return f"{x.value.id}.buffer_"
+            if isinstance(x.value, ast.Name) and x.attr in {"buffer", "capacity", "chunks"} and self.kind_of(x.value.id) == "X":
+                return f"{x.value.id}.{x.attr}_"
+            # self.chunks[-1].start / .end
+            if x.attr in OBJ_FIELDS and isinstance(x.value, ast.Subscript) and self.is_last_chunk(x.value):
+                return f"(Py.last {self.e(x.value.value)}).{x.attr}_"
             raise Unsupported("attribute " + x.attr)
         if isinstance(x, ast.UnaryOp):
             if isinstance(x.op, ast.USub):
@@ -156,6 +169,8 @@ class Tr:
             if x.keywords:
                 raise Unsupported("keyword arguments")
             if isinstance(f, ast.Attribute):
+                if f.attr == "_new_buffer" and isinstance(f.value, ast.Name) and self.kind_of(f.value.id) == "X" and len(x.args) == 1:
+                    return f"(Py.new_buffer {self.e(x.args[0])})"
                 if f.attr == "copy" and not x.args:
                     return self.e(f.value)          # a copy of an immutable list is the list
                 if f.attr == "index" and len(x.args) == 1:
@@ -164,6 +179,8 @@ class Tr:
             if not isinstance(f, ast.Name):
                 raise Unsupported("call " + ast.dump(f))
             n, args = f.id, x.args
+            if n == "Chunk" and len(args) == 2:
+                return f"(Py.Obj.mk {self.e(args[0])} {self.e(args[1])})"
             if n in ("min", "max") and len(args) == 2:
                 return f"({n} {self.e(args[0])} {self.e(args[1])})"
             if n == "len" and len(args) == 1:
@@ -207,6 +224,22 @@ class Tr:
             if isinstance(s.value, ast.Constant) and isinstance(s.value.value, str):
                 return []          # docstring
             c = s.value
+            if isinstance(c, ast.Call) and isinstance(c.func, ast.Attribute) and c.func.attr == "append" and len(c.args) == 1 \
+                    and isinstance(c.func.value, ast.Attribute) and isinstance(c.func.value.value, ast.Name) \
+                    and c.func.value.attr == "chunks" and self.kind_of(c.func.value.value.id) == "X":
+                o = c.func.value.value.id
+                self.mutated.add(o)
+                return [ind + f"{o} := {{ {o} with chunks_ := {o}.chunks_ ++ [{self.e(c.args[0])}] }}"]
+            if isinstance(c, ast.Call) and isinstance(c.func, ast.Attribute) and c.func.attr == "copy_to_native" \
+                    and isinstance(c.func.value, ast.Name) and self.kind_of(c.func.value.id) == "X" and not c.args:
+                kw = {k.arg: k.value for k in c.keywords}
+                if sorted(kw) != ["dest", "dest_offset", "nbytes", "source_offset"] or not isinstance(kw["dest"], ast.Name):
+                    raise Unsupported("copy_to_native call shape")
+                d = kw["dest"].id
+                o = c.func.value.id
+                self.uses.add("NpCopyToNative")
+                return [ind + f"{d} := XoGen.BufferNumpy_copy_to_native (Py.Buf.mk {o}.buffer_) {d} {self.e(kw['dest_offset'])} "
+                              f"{self.e(kw['source_offset'])} {self.e(kw['nbytes'])}"]
             if isinstance(c, ast.Call) and isinstance(c.func, ast.Attribute) and c.func.attr == "append" \
                     and isinstance(c.func.value, ast.Name) and len(c.args) == 1:
                 v = c.func.value.id
@@ -235,6 +268,13 @@ class Tr:
             raise Unsupported("slice assignment target")
         if isinstance(s, ast.Assign) and len(s.targets) == 1 and isinstance(s.targets[0], ast.Attribute):
             tg = s.targets[0]
+            if isinstance(tg.value, ast.Name) and tg.attr in {"buffer", "capacity", "chunks"} and self.kind_of(tg.value.id) == "X":
+                self.mutated.add(tg.value.id)
+                return [ind + f"{tg.value.id} := {{ {tg.value.id} with {tg.attr}_ := {self.e(s.value)} }}"]
+            if tg.attr == "end" and isinstance(tg.value, ast.Subscript) and self.is_last_chunk(tg.value):
+                o = tg.value.value.value.id
+                self.mutated.add(o)
+                return [ind + f"{o} := {{ {o} with chunks_ := Py.setLastEnd {o}.chunks_ {self.e(s.value)} }}"]
             if isinstance(tg.value, ast.Name) and tg.attr in OBJ_FIELDS and self.kind_of(tg.value.id) == "O":
                 self.mutated.add(tg.value.id)
                 return [ind + f"{tg.value.id} := {{ {tg.value.id} with {tg.attr}_ := {self.e(s.value)} }}"]
@@ -267,9 +307,9 @@ class Tr:
         raise Unsupported("statement " + type(s).__name__)
 
     def lean(self, lname):
-        ty = {"I": "Int", "L": "List Int", "O": "Py.Obj", "T": "Py.StrOrList", "B": "Py.Buf", "Y": "List UInt8"}
-        objs = [a.arg for a, k in zip(self.fn.args.args, self.kinds) if k in "OBY"]
-        params = " ".join(f"({a.arg + ('0' if k in 'OBY' else '')} : {ty[k]})" for a, k in zip(self.fn.args.args, self.kinds))
+        ty = {"I": "Int", "L": "List Int", "O": "Py.Obj", "T": "Py.StrOrList", "B": "Py.Buf", "Y": "List UInt8", "X": "Py.XBuf"}
+        objs = [a.arg for a, k in zip(self.fn.args.args, self.kinds) if k in "OBYX"]
+        params = " ".join(f"({a.arg + ('0' if k in 'OBYX' else '')} : {ty[k]})" for a, k in zip(self.fn.args.args, self.kinds))
         if len(self.fn.args.args) != len(self.kinds) or self.fn.args.vararg or self.fn.args.kwarg or self.fn.args.defaults:
             raise Unsupported("signature changed")
         body = [f"  let mut {o} := {o}0" for o in objs] + self.block(self.fn.body, "  ")
@@ -333,6 +373,8 @@ def generate(repo, out):
                 if isinstance(n, ast.Call) and isinstance(n.func, ast.Name) and n.func.id in SIBLINGS and n.func.id != func:
                     dep = [m for m, _f, f2, _k in FUNCS if f2 == n.func.id][0]
                     imports.append(f"import XoGen.Src.{dep}")
+            for u in sorted(tr.uses):
+                imports.append(f"import XoGen.Src.{u}")
             pysrc = ast.get_source_segment(src, fn) or ""
             text = "\n".join(dict.fromkeys(imports)) + "\n" + header + "\n/- source:\n" + pysrc.replace("-/", "- /") + "\n-/\nnamespace XoGen\n" + code + "\nend XoGen\n"
             report[func] = "ok"
